@@ -64,6 +64,10 @@ class Project:
 			rec['retried_timeout'] = True
 		return rec
 
+	def run_task(self, task: Any, timeout: float = 240.0) -> dict[str, Any]:
+		self.processes += 1
+		return sim_process(self.sc.root, task, fault=None, timeout=timeout)
+
 	def destroy(self) -> None:
 		self.sc.destroy()
 
